@@ -9,6 +9,7 @@ import importlib.metadata
 from contextvars import ContextVar
 from http import HTTPStatus
 from io import BytesIO, IOBase
+from typing import cast
 
 import falcon
 import pyarrow as pa
@@ -136,6 +137,20 @@ def _set_http_status(resp: falcon.Response, status_code: HTTPStatus) -> None:
         resp.status = str(status_code.value)
 
 
+def _request_body_source(req: falcon.Request) -> IOBase:
+    """Return the stream to read this request's body from.
+
+    Falcon's ``bounded_stream`` is bounded by ``Content-Length`` and yields
+    nothing when the header is absent.  A request that arrived chunked has no
+    ``Content-Length``; a WSGI gateway that de-chunks it (gunicorn, uWSGI)
+    marks ``wsgi.input`` as self-terminating with ``wsgi.input_terminated``,
+    in which case the raw stream is read to its end instead.
+    """
+    if req.content_length is None and req.env.get("wsgi.input_terminated"):
+        return cast("IOBase", req.stream)
+    return cast("IOBase", req.bounded_stream)
+
+
 def _get_request_stream(req: falcon.Request) -> IOBase | pa.NativeFile:
     """Return the request body stream, using the decompressed stream if available.
 
@@ -160,7 +175,7 @@ def _get_request_stream(req: falcon.Request) -> IOBase | pa.NativeFile:
     # keeping the reads in C++ instead of calling back into Python.
     body = getattr(req.context, "capped_request_body", None)
     if body is None:
-        body = req.bounded_stream.read()
+        body = _request_body_source(req).read()
     _current_request_batch.set(body)
     return pa.BufferReader(body)
 
